@@ -1267,11 +1267,11 @@ theorem res_mem_propagate {a : Auth} {w : Nat} {er : Err} :
 /-- when a stream failure is propagated to the watchers rather than answered by a fallback -/
 theorem handleFailure_cbs (a : Auth) (srv : Nat) (after : Bool) :
     (handleFailure a srv after).cbs =
-      if after = false ∧ (uncachedWatch a = false ∨ nextServer a srv = none) then propagate a else [] := by
+      if after = false ∧ (uncachedWatch a = false ∨ fallbackTarget a srv = none) then propagate a else [] := by
   unfold handleFailure
   cases after
   · by_cases hu : uncachedWatch a = true
-    · cases hn : nextServer a srv with
+    · cases hn : fallbackTarget a srv with
       | none => simp [hu, hn]
       | some i => simp [hu, hn, fallbackTo]
     · simp [hu]
@@ -1369,7 +1369,7 @@ theorem error_step {a : Auth} {e : AEv} {w : Nat} {er : Err} (hi : AInv a) :
     · rintro ⟨p, _, _, hk⟩; split at hk <;> simp at hk
   | failure srv after =>
     simp only [Auth.step, handleFailure_cbs]
-    have hsame : after = false ∧ (uncachedWatch a = false ∨ nextServer a srv = none) →
+    have hsame : after = false ∧ (uncachedWatch a = false ∨ fallbackTarget a srv = none) →
         (handleFailure a srv after).auth = a := by
       rintro ⟨rfl, hc⟩
       unfold handleFailure
@@ -1595,6 +1595,13 @@ theorem mem_nextServer {a : Auth} {srv i : Nat} (h : nextServer a srv = some i) 
     List.contains_eq_mem, decide_eq_false_iff_not] at this
   exact ⟨this.2.1, this.1, this.2.2⟩
 
+theorem fallbackTarget_some {a : Auth} {srv j : Nat} (h : fallbackTarget a srv = some j) :
+    a.active = some srv ∧ nextServer a srv = some j := by
+  unfold fallbackTarget at h
+  by_cases hact : a.active = some srv
+  · simp [hact] at h; exact ⟨hact, h⟩
+  · simp [hact] at h
+
 theorem handleUpdate_n (a : Auth) (srv : Nat) (typ ver : String) (es : List (String × Upd)) :
     (handleUpdate a srv typ ver es).auth.n = a.n := by
   cases hact : a.active with
@@ -1652,7 +1659,7 @@ theorem bounded_step {a : Auth} {e : AEv} (hb : Bounded a) : Bounded (a.step e).
       · exact hb
       · split
         · rename_i i hn
-          have hi := mem_nextServer hn
+          have hi := mem_nextServer (fallbackTarget_some hn).2
           refine ⟨hb.pos, ?_, ?_⟩
           · intro j hj; simp only [fallbackTo, Option.some.injEq] at hj; subst hj; exact hi.2.1
           · intro p' hp' j hj
@@ -1969,17 +1976,10 @@ theorem nextServer_none {a : Auth} {srv : Nat} (hn : nextServer a srv = none) (x
 def Prefix (a : Auth) : Prop :=
   (a.active = none → a.opened = []) ∧ ∀ act, a.active = some act → ∀ i, i ∈ a.opened ↔ i ≤ act
 
-/-- failure reports and updates come from servers the authority currently has a channel to (no stale events) -/
-def FromOpen (a : Auth) : AEv → Prop
-  | .failure srv _ => srv ∈ a.opened
-  | .update srv _ _ _ _ => srv ∈ a.opened
-  | _ => True
-
-theorem prefix_step {a : Auth} {e : AEv} (hp : Prefix a) (he : FromOpen a e) : Prefix (a.step e).auth := by
+theorem prefix_step {a : Auth} {e : AEv} (hp : Prefix a) : Prefix (a.step e).auth := by
   obtain ⟨hp0, hp1⟩ := hp
   cases e with
   | update srv gen typ ver es =>
-    simp only [FromOpen] at he
     simp only [Auth.step]
     cases hact : a.active with
     | none => simp only [handleUpdate, revert_none hact]; exact ⟨hp0, hp1⟩
@@ -2003,19 +2003,20 @@ theorem prefix_step {a : Auth} {e : AEv} (hp : Prefix a) (he : FromOpen a e) : P
           · intro h; exact ⟨this.mpr (by omega), h⟩
   | dne k => exact ⟨hp0, hp1⟩
   | failure srv after =>
-    simp only [FromOpen] at he
     simp only [Auth.step, handleFailure]
     split
     · exact ⟨hp0, hp1⟩
     · split
       · exact ⟨hp0, hp1⟩
       · split
-        · rename_i j hn
+        · rename_i j hn0
+          have hn := (fallbackTarget_some hn0).2
           have hm := mem_nextServer hn
+          have hact0 := (fallbackTarget_some hn0).1
           cases hact : a.active with
-          | none => rw [hp0 hact] at he; simp at he
+          | none => rw [hact] at hact0; simp at hact0
           | some act =>
-            have hsrv := (hp1 act hact srv).mp he
+            have hsrv : srv ≤ act := by rw [hact] at hact0; simp at hact0; omega
             have hj : j = act + 1 := by
               have h1 : ¬ j ≤ act := fun h => hm.2.2 ((hp1 act hact j).mpr h)
               rcases Nat.lt_or_ge (act + 1) j with h2 | h2
